@@ -42,6 +42,7 @@ type schemaNode struct {
 	Parent   *schemaNode   // nearest enclosing struct node (nil for the root)
 	Children []*schemaNode // for struct nodes: positions directly below (squash-flattened)
 	gen      func(t *rapid.T) Val
+	Zero     *Val      // the zero value of the leaf's type, when the factory default there is NOT the zero value
 	Elem     *compKind // for kList: the schema of one element
 }
 
